@@ -68,6 +68,8 @@ def main():
         W = "/tmp/wt/r11-%s" % pid  # round 11
     if any(m in ("m34", "m35", "m36") for m in ms):
         W = "/tmp/wt/r12-%s" % pid  # round 12
+    if any(m in ("m37", "m38", "m39") for m in ms):
+        W = "/tmp/wt/r13-%s" % pid  # round 13
     take_slot()
     for m in ms:
         out = os.path.join(W, "_out", m)
